@@ -19,7 +19,7 @@ T("ndarray.prod", "c07axes", lambda c: K(c.A((2, 3, 4)), axis=(0, 2)), shapes=("
 T(N("var"), "c07axes", lambda c: K(c.A((2, 3, 4)), axis=(0, 2)), shapes=("2d",), dtypes="fc")
 # stacks of matrices with a stack size different from the matrix order, in both directions
 T(L("det"), "c07stack", lambda c: K(c.A((4, 2, 2))), shapes=("sq",), dtypes="fc")
-T(L("det"), "c07stack2", lambda c: K(c.A((2, 3, 2, 2))), shapes=("sq",), dtypes="f")
+T(L("det"), "c07stack2", lambda c: K(c.A((3, 2, 2, 2))), shapes=("sq",), dtypes="f")
 T(L("inv"), "c07stack", lambda c: K(c.A((4, 2, 2))), shapes=("sq",), dtypes="fc")
 T(L("eigvals"), "c07stack", lambda c: K(c.A((4, 2, 2))), shapes=("sq",), dtypes="f")
 # a weighted density
